@@ -9,6 +9,7 @@ import (
 	"bytes"
 	"fmt"
 	"os"
+	"path/filepath"
 	"sort"
 	"strings"
 	"time"
@@ -54,6 +55,22 @@ func c10Classify(c *Ctx, base, layer afero.Fs, p string, dur time.Duration) (kin
 	b, l = entOf(base, p), entOf(layer, p)
 	if b.ok && b.dir || l.ok && l.dir {
 		return "", memEnt{}, b, l
+	}
+	// the cache layer holds a REGULAR FILE at a proper ancestor of the name (the base turned a cached file
+	// into a directory): the cached file is what is served; nothing can be cached below it (theorem
+	// C10_below_cached_file_refused) -- not a "first read"
+	if !l.ok {
+		for d := filepath.Dir(filepath.Clean(p)); ; d = filepath.Dir(d) {
+			if a := entOf(layer, d); a.ok {
+				if !a.dir {
+					return "belowfile", memEnt{}, b, l
+				}
+				break
+			}
+			if d == "/" || d == "." {
+				break
+			}
+		}
 	}
 	if !l.ok {
 		if !b.ok {
@@ -169,6 +186,14 @@ func c10Case(c *Ctx, id, stack string, items []string) {
 				fail("stale-copy-not-refreshed", "step %d (%s) on an expired copy older than the base: afterwards the base holds %s, the cache layer %s (present=%v)", i, it, short(b2.data), short(l2.data), l2.ok)
 				continue
 			}
+		}
+		if kind == "belowfile" {
+			c.Count("c10.kind." + kind)
+			l2 := entOf(layer, p)
+			if isOpen && (out == "handle" || l2.ok) {
+				fail("created-below-cached-file", "step %d (%s): %s; the cache layer holds a regular file above %s and now an entry at it: %v", i, it, out, p, l2.ok)
+			}
+			continue
 		}
 		if kind != "" {
 			c.Count("c10.kind." + kind)
